@@ -71,6 +71,7 @@ INFO = {
         'DESIGN.md note 29 explains that nothing truthful can be computed then)',
     ],
 }
+INFO['rule'] += ' Later additions: a root named more than 1 s before a level-0 announcement is superseded by it (no longer an accepted alternative reading).'
 
 OWN = 'alice'
 PEERS = ('p0', 'p1', 'p2', 'p3')
